@@ -43,6 +43,7 @@ TOL_RAM = 2e-4
 TOL_RAJ = 2e-2
 TOL_MONO = 1e-6
 TOL_VERDICT = 1e-3
+TOL_LF = 2e-3
 
 
 def _mod():
@@ -307,6 +308,8 @@ class C10(Prop):
     LEAN_MODULES = ["Proofs.C10"]
     PARALLEL = 16
     THEOREMS = [
+        "PylifeVerif.C10.assessment_batch_independent_PRAM",
+        "PylifeVerif.C10.assessment_sample_insensitive",
         "PylifeVerif.C10.assessment_batch_independent_PRAM_of_hcm_batch",
         "PylifeVerif.C10.assessment_sample_insensitive_of_hcm_insert",
         "PylifeVerif.C10.lifetime_antitone_in_curve_partial",
@@ -317,9 +320,11 @@ class C10(Prop):
         "PylifeVerif.Assess.classQ_first_eq_own",
         "PylifeVerif.Assess.nCycles_antitone",
     ]
+    # assessment_batch_independent_PRAM / assessment_sample_insensitive are unconditional (the HCM facts are
+    # C05.hcm_batch_eq_single_code, C04.hcm_insert_nonreversal_interior_code, C04.hcm_append_nonreversal_code, all about
+    # twoPass = the code); the `_of_hcm_...` forms (same conclusion from the HCM statements as hypotheses) are kept.
+    # Both are statements about the P_RAM pipeline; the P_RAJ part of C10 is decided by the oracle only (ASSUMPTIONS).
     PARTIAL = {
-        "PylifeVerif.C10.assessment_batch_independent_PRAM_of_hcm_batch": "conditional on the statement of C05.hcm_batch_eq_single (hypothesis HcmBatchEqSingle; proved in the C05 slice); P_RAJ is decided by the oracle only",
-        "PylifeVerif.C10.assessment_sample_insensitive_of_hcm_insert": "conditional on the statements of C04.hcm_insert_nonreversal_interior / C04.hcm_append_nonreversal (hypotheses); P_RAJ by the oracle only",
         "PylifeVerif.C10.lifetime_antitone_in_curve_partial": "hypothesis Regime: the lower curve does not fail within the two recorded passes, or the first pass recorded at most one hysteresis more than the second (early-failure lifetime counts hystereses of both passes, the regular one multiples of pass 2)",
         "PylifeVerif.C10.lifetime_antitone_in_load_scale_partial": "per-hysteresis step (P_RAM of every hysteresis non-decreasing in the load scale for the binned Masing law) is a hypothesis; Regime as above; the real code is covered by the oracle",
         "PylifeVerif.C10.N10_le_N50_le_N90_partial": "hypothesis: first-pass damage on the 50 % curve <= 1 (beyond it the code's (1-D1)/D2 is negative and not monotone)",
@@ -337,7 +342,7 @@ class C10(Prop):
         "table values are scaled exactly by 2^100 to integers for Model/HCM; sums of table values are exact in the model and rounded in the code (agreement to 1e-9 relative is required)",
         "in the model of a batch the first point's stresses/strains that only steer min/max selections are evaluated with the assessed point's table (only their order matters; table values are positive); beyond the last class edge the model returns the last class value where the code raises (never reached for the point's own loads)",
         "beta = compute_beta(P_A) (root search) is taken from the real run (C09); loads of correspondence cases are integers with c = 1, P_L = 50 so that the scaled loads are exact",
-        "oracle tolerances: batch vs single / refined vs base lifetimes 2e-4 (P_RAM) and 2e-2 (P_RAJ) relative, because the look-up tables are filled by a vectorised Newton iteration whose result depends on the other points in the last solver digits; monotonicity 1e-6; verdicts compared only when P_max is more than 1e-3 away from the endurance value; scipy 'Failed to converge' in the Seeger-Beste tables is counted, not judged",
+        "oracle tolerances: batch vs single / refined vs base lifetimes 2e-4 (P_RAM) and 2e-2 (P_RAJ) relative, because the look-up tables are filled by a vectorised Newton iteration whose result depends on the other points in the last solver digits; monotonicity 1e-6; verdicts compared only when P_max is more than 1e-3 away from the endurance value; running strain extremes batch vs single to 2e-3 of the largest strain of the history; scipy 'Failed to converge' in the Seeger-Beste tables is counted, not judged",
     ]
 
     def __init__(self):
@@ -588,7 +593,10 @@ class C10(Prop):
             if r:
                 return r
             a, b = rb[k].get("LF"), rs.get("LF")
-            if a is not None and b is not None and (len(a) != len(b) or any(abs(x - y) > 1e-9 + 1e-5 * max(abs(x), abs(y)) for x, y in zip(a, b))):
+            # residual strains are differences of look-up table values: their absolute noise (vectorised Newton, Seeger-Beste
+            # tables agree to ~1e-3 between batch and single) scales with the largest strain of the history
+            lf_scale = max([abs(x) for x in (a or []) + (b or [])] + [0.0])
+            if a is not None and b is not None and (len(a) != len(b) or any(abs(x - y) > 1e-9 + TOL_LF * lf_scale for x, y in zip(a, b))):
                 return (f"running strain extremes epsilon_min_LF / epsilon_max_LF of point {k} differ between the batch and the single run "
                         f"(they feed the P_RAJ crack opening logic): batch {a} vs alone {b}; group={par['group']} R_m={par['Rm']} K_p={par['Kp']} loads={L} "
                         f"ratios={[c / cs[0] for c in cs]}", "batch-P_RAJ-strain-extremes")
